@@ -24,6 +24,7 @@ steps (lists; `s` = session index local to the connection, `r` = request number 
 The judge works on the client-side transcript only (ordered decoded messages + send positions); the
 server's event log supplies the step bound of C31(a), coverage signatures and explanations.
 """
+import json
 import os
 import random
 import re
@@ -93,7 +94,7 @@ def render(conn, s, r, shape):
         code = 'println("%s") let %s = 0 while %s < %d { %s += 1 } println("%s") %d' % (
             t0, v, v, shape.get("iters", LONG_ITERS), v, t1, 100000 + r)
         return {"code": code, "out": t0 + "\n" + t1 + "\n", "err": "", "end": "value", "value": str(100000 + r),
-                "long": True}
+                "long": shape.get("iters", LONG_ITERS) >= LONG_ITERS}
     if k == "biglong":
         # thousands of small definitions (parse + load takes 100s of ms) followed by a bounded long loop
         t0, t1 = tag(conn, s, r, 0), tag(conn, s, r, 1)
@@ -102,7 +103,7 @@ def render(conn, s, r, shape):
         code = '%s println("%s") let %s = 0 while %s < %d { %s += 1 } println("%s") %d' % (
             defs, t0, v, v, shape.get("iters", LONG_ITERS), v, t1, 100000 + r)
         return {"code": code, "out": t0 + "\n" + t1 + "\n", "err": "", "end": "value", "value": str(100000 + r),
-                "long": True}
+                "long": shape.get("iters", LONG_ITERS) >= LONG_ITERS}
     if k == "def":
         name = defname(conn, s, shape["n"])
         return {"code": "fun %s(): Int { %d }" % (name, 500000 + shape["n"]), "out": "", "err": "", "end": "none",
@@ -424,10 +425,12 @@ def _pre_eval_stop(g, s):
     """Stop request aimed at the worker's parse/load phase: a large source (or just a pipelined stop) without
     waiting for any output; judged from the event log (rule pre-eval-window)."""
     rng = g.rng
+    # a shorter loop than LONG_ITERS: rule (d) is logical and needs no "cannot have finished" argument, and a
+    # stop that legitimately lands before the reset lets the loop run to its end
     if rng.random() < 0.65:
-        shape = {"k": "biglong", "ndefs": rng.choice([1200, 2000, 3000])}
+        shape = {"k": "biglong", "ndefs": rng.choice([1200, 2000, 3000]), "iters": 400000}
     else:
-        shape = {"k": "long"}
+        shape = {"k": "long", "iters": 400000}
     r = g.eval_step(s, shape, load=(None,) if rng.random() < 0.25 else None)
     g.steps.append(["sleep", rng.choice([0, 5, 20, 50, 100, 200])])
     closing = rng.random() < 0.25 and len(g.open) > 1
@@ -552,12 +555,29 @@ class _Driver(threading.Thread):
     def wid(self, r):
         return "%s%d" % (self.name_, r)
 
-    def _wait(self, pred, what, limit=None):
+    def _worker_exited(self, sname):
+        """Harness economy only (the verdict is taken later from the complete log): has the worker thread of
+        this connection's session `sname` logged `worker.exit`?"""
+        path = self.shared["srv"].event_log
+        try:
+            lines = [l for l in open(path, encoding="utf-8", errors="replace")
+                     if '"worker.' in l or ('"dispatch"' in l and "clone %sc1 " % self.name_ in l)]
+        except OSError:
+            return False
+        evs = []
+        for l in lines:
+            try:
+                evs.append(json.loads(l))
+            except ValueError:
+                pass
+        return _worker_exit_event(evs, self.name_, sname) is not None
+
+    def _wait(self, pred, what, limit=None, giveup=None):
         """Wait for a message; the watchdog is generous until something already went wrong in this run
-        (a watchdog fired, or the server reported a panic more than 2 s ago) - then it is short.
-        Purely a harness economy: verdicts never depend on which watchdog fired."""
+        (a watchdog fired, or the server reported a panic and this wait is already long) - then it is short.
+        Purely a harness economy: verdicts never depend on which watchdog fired.
+        Every slice rescans the transcript from its start, so no message can slip between two slices."""
         t0 = time.time()
-        start = 0
         while True:
             budget = WATCHDOG if limit is None else limit
             if self.shared.get("tripped"):
@@ -566,19 +586,31 @@ class _Driver(threading.Thread):
                 budget = 0      # some server thread panicked and this wait is already long: stop waiting
             left = t0 + budget - time.time()
             if left <= 0:
+                i = self.conn.wait(pred, 0, 0)
+                if i is not None:
+                    return i
                 self.shared["tripped"] = True
                 self.log.append("watchdog: %s" % what)
                 return None
-            i = self.conn.wait(pred, min(left, 0.5), start)
+            i = self.conn.wait(pred, min(left, 0.5), 0)
             if i is not None:
                 return i
             if self.conn.eof:
                 self.log.append("eof: %s" % what)
                 return None
-            start = len(self.conn.msgs)
+            if giveup is not None and time.time() - t0 > 1.0 and giveup():
+                # one more look: whatever the worker sent before it exited is already on the wire
+                i = self.conn.wait(pred, 0.3, 0)
+                if i is None:
+                    self.log.append("gave up (worker exited): %s" % what)
+                return i
 
-    def _wait_done(self, w, what, limit=None):
-        return self._wait(lambda m: m.get("id") == w and nc.is_done(m), "%s %s" % (what, w), limit)
+    def _wait_done(self, w, what, limit=None, giveup=None):
+        if giveup is None:
+            sname = self.names.get((self.reqs.get(w) or {}).get("s"))
+            if sname and self.reqs[w]["kind"] in ("eval", "load", "compl", "lookup", "sentinel"):
+                giveup = lambda sn=sname: self._worker_exited(sn)
+        return self._wait(lambda m: m.get("id") == w and nc.is_done(m), "%s %s" % (what, w), limit, giveup)
 
     def _send(self, r, req, info):
         w = self.wid(r)
@@ -653,7 +685,9 @@ class _Driver(threading.Thread):
             elif op == "wait_out":
                 w = self.wid(st[1])
                 # first output, or the request's done if it ends without printing (e.g. unknown session)
-                self._wait(lambda m: m.get("id") == w and ("out" in m or nc.is_done(m)), "wait_out %s" % w)
+                sname = self.names.get((self.reqs.get(w) or {}).get("s"))
+                self._wait(lambda m: m.get("id") == w and ("out" in m or nc.is_done(m)), "wait_out %s" % w,
+                           giveup=(lambda sn=sname: self._worker_exited(sn)) if sname else None)
             elif op == "wait_idle":
                 for w, info in list(self.reqs.items()):
                     if info.get("s") == st[1] and info["kind"] in ("eval", "load", "compl", "lookup"):
@@ -681,7 +715,9 @@ class _Driver(threading.Thread):
             self._wait_done(w, "final", max(0.0, deadline - time.time()))
         for w, info in list(self.reqs.items()):
             if info.get("s") in closed and info["kind"] in ("eval", "load", "compl", "lookup"):
-                self._wait_done(w, "final-closed", max(0.0, deadline - time.time()))
+                sname = self.names.get(info["s"])
+                self._wait_done(w, "final-closed", max(0.0, deadline - time.time()),
+                                giveup=(lambda sn=sname: self._worker_exited(sn)) if sname else None)
         # a sentinel that was queued behind a request that killed the worker is lost with it: ask again.
         # (answered `unknown-session` for a session we never closed = the worker is dead)
         self.probes2 = {}
@@ -851,9 +887,18 @@ def judge(case, obs):
                         proof = "reader-answered-later-request"
                 if proof is None and _log_finished(obs, w):
                     proof = "worker-finished-request"
+                if proof is None and session_bound and isinstance(s, int) and done.get(cname + "q"):
+                    # The session's worker thread left session_worker (`worker.exit`) before the reader thread
+                    # dispatched this connection's quiescence `describe`, whose answer we hold: everything the
+                    # worker ever sent precedes that answer in the ordered transcript, so nothing more can come.
+                    sname = co["names"].get(s)
+                    ex = _worker_exit_event(_points(obs), cname, sname) if sname else None
+                    qd = next((e for e in _points(obs) if e["point"] == "dispatch"
+                               and e.get("extra", "").split(" ")[1:2] == [cname + "q"]), None)
+                    if ex is not None and qd is not None and ex["seq"] < qd["seq"]:
+                        proof = "worker-exited"
                 if proof:
-                    sig = "no-done:" + proof if proof.startswith("worker-") and proof != "worker-finished-request" \
-                        else "no-done"
+                    sig = "no-done:" + proof if proof in ("worker-panic", "worker-dead") else "no-done"
                     v30.append((sig, {"conn": cname, "id": w, "kind": kind, "proof": proof,
                                       "shape": info.get("shape"), "stderr": obs.get("stderr", "")[-600:] if panicked else ""}))
                 else:
@@ -974,8 +1019,13 @@ def judge(case, obs):
                         k = reqs[x]["kind"]
                         facts["intr_executing" if k == "intr" else "close_executing"] += 1
                         if not interrupted:
-                            v31.append(("interrupt-lost" if k == "intr" else "close-did-not-stop-eval",
-                                        dict(base, stop=x, values=values)))
+                            # corroborate with the event log: the store must have been complete before the
+                            # eval ended (a client that was slow to send after the first output proves nothing)
+                            if _stop_before_eval_end(obs, x, w) is False:
+                                facts["late_stops"] = facts.get("late_stops", 0) + 1
+                            else:
+                                v31.append(("interrupt-lost" if k == "intr" else "close-did-not-stop-eval",
+                                            dict(base, stop=x, values=values)))
                         break
             for x in stops.get(s, []):
                 if reqs[x]["kind"] == "intr" and sentidx[x] < sentidx[w]:
@@ -1110,6 +1160,30 @@ def _tkey(e):
     return e.get("tid") or e.get("thread")
 
 
+def _worker_exit_event(pts, cname, sname):
+    """The `worker.exit` event of the worker thread serving session `sname` of connection `cname`, or None.
+    reader thread = the thread that dispatched the connection's first clone (ids are unique per case);
+    worker thread = `worker.start` with extra = reader tid and thread name nrepl-session-<sname>."""
+    reader = None
+    for e in pts:
+        if e.get("point") == "dispatch" and e.get("extra", "").split(" ")[1:2] == [cname + "c1"]:
+            reader = e.get("tid")
+            break
+    if reader is None:
+        return None
+    wt = None
+    for e in pts:
+        if e.get("point") == "worker.start" and e.get("extra") == reader \
+                and e.get("thread") == "nrepl-session-%s" % sname:
+            wt = e.get("tid")
+    if wt is None:
+        return None
+    for e in pts:
+        if e.get("point") == "worker.exit" and e.get("tid") == wt:
+            return e
+    return None
+
+
 def _log_finished(obs, wid):
     """True when the log shows the worker dequeued `wid` and later reached responses.sent on that thread."""
     pts = _points(obs)
@@ -1184,6 +1258,42 @@ def _step_bound(obs):
                                  "eval_end_steps": f["steps"], "note": "eval ran on to its end"}))
                 break
     return out
+
+
+def _stop_before_eval_end(obs, stop_wid, eval_wid):
+    """True / False when the log shows that the store of stop request `stop_wid` was complete before /
+    only after the `eval.end` of request `eval_wid`; None when the log cannot tell."""
+    pts = _points(obs)
+    if not pts or not all("tid" in e for e in pts):
+        return None
+    end = None
+    wt = None
+    for e in pts:
+        if e["point"] == "dequeued" and e.get("extra") == eval_wid:
+            wt = e["tid"]
+        elif wt is not None and e["tid"] == wt and e["point"] == "eval.end":
+            end = e["seq"]
+            break
+        elif wt is not None and e["tid"] == wt and e["point"] == "dequeued":
+            break
+    if end is None:
+        return None
+    rt = None
+    stored = False
+    for e in pts:
+        if e["point"] == "dispatch" and e.get("extra", "").split(" ")[1:2] == [stop_wid]:
+            rt = e["tid"]
+            continue
+        if rt is not None and e["tid"] == rt:
+            if e["point"] in ("interrupt.before_store", "close.before_store"):
+                stored = True
+                continue
+            if stored:
+                # first event of the reader thread after the store
+                return e["seq"] < end
+            if e["point"] == "dispatch":
+                return None         # the stop request did not reach a store (unknown session)
+    return None
 
 
 def _pre_eval_window(obs, status_by_wid, has_exprs):
